@@ -1730,7 +1730,7 @@ func (p *wat2cWorker) buildFunc_ins(w io.Writer, fn *ast.Func, stk *valueTypeSta
 		sp0 := stk.Pop(token.I32)
 		sp1 := stk.Pop(token.I32)
 		ret0 := stk.Push(token.I32)
-		fmt.Fprintf(w, "%sR%d.i32 = R%d.i32 << (R%d.i32&63); // %s\n",
+		fmt.Fprintf(w, "%sR%d.i32 = (int32_t)((uint32_t)(R%d.i32) << (R%d.i32&31)); // %s\n",
 			indent, ret0, sp1, sp0,
 			insString(i),
 		)
@@ -1738,7 +1738,7 @@ func (p *wat2cWorker) buildFunc_ins(w io.Writer, fn *ast.Func, stk *valueTypeSta
 		sp0 := stk.Pop(token.I32)
 		sp1 := stk.Pop(token.I32)
 		ret0 := stk.Push(token.I32)
-		fmt.Fprintf(w, "%sR%d.i32 = R%d.i32 >> (R%d.i32&63); // %s\n",
+		fmt.Fprintf(w, "%sR%d.i32 = R%d.i32 >> (R%d.i32&31); // %s\n",
 			indent, ret0, sp1, sp0,
 			insString(i),
 		)
@@ -1746,7 +1746,7 @@ func (p *wat2cWorker) buildFunc_ins(w io.Writer, fn *ast.Func, stk *valueTypeSta
 		sp0 := stk.Pop(token.I32)
 		sp1 := stk.Pop(token.I32)
 		ret0 := stk.Push(token.I32)
-		fmt.Fprintf(w, "%sR%d.i32 = (int32_t)((uint32_t)(R%d.i32)>>(uint32_t)(R%d.i32&63)); // %s\n",
+		fmt.Fprintf(w, "%sR%d.i32 = (int32_t)((uint32_t)(R%d.i32)>>(uint32_t)(R%d.i32&31)); // %s\n",
 			indent, ret0, sp1, sp0,
 			insString(i),
 		)
